@@ -29,8 +29,14 @@ from .. import fakes
 from ..vloop import virtual_loop
 from . import dist
 
-OUTCOMES = ["ok", "range", "client", "boom", "hang"]
-TIMEOUT_S = 5.0
+# "slow": the call succeeds shortly before the (non-integral) request timeout expires
+OUTCOMES = ["ok", "range", "client", "boom", "hang", "slow"]
+TIMEOUT_S = 5.5
+SLOW_S = 5.2
+
+
+def outcome_fails(o: str) -> bool:
+    return o not in ("ok", "slow")
 
 
 NOT_WORKING: set[int] = set()  # batteries the stub tracker reports as not working (set per execution)
@@ -64,6 +70,8 @@ def make_outcome_fn(outcomes: dict[int, str]):
             return None
         if o == "hang":
             return asyncio.get_running_loop().create_future()
+        if o == "slow":
+            return asyncio.sleep(SLOW_S)
         if o == "range":
             raise _mk(OperationOutOfRange)
         if o == "client":
